@@ -128,10 +128,35 @@ impl Cell {
 //@use cell.fns Cell::to_isize assumed
 }
 impl PartialEq for Cell { #[verifier::external_body] fn eq(&self, other: &Self) -> bool { unimplemented!() } }
-impl From<Xstr> for Cell { #[verifier::external_body] fn from(x: Xstr) -> (r: Cell) { unimplemented!() } }
-impl From<f64> for Cell { #[verifier::external_body] fn from(x: f64) -> (r: Cell) { unimplemented!() } }
-impl From<usize> for Cell { #[verifier::external_body] fn from(x: usize) -> (r: Cell) { unimplemented!() } }
-impl From<i64> for Cell { #[verifier::external_body] fn from(x: i64) -> (r: Cell) { unimplemented!() } }
+// the literal conversions are the real ones of src/cell.rs
+impl vstd::std_specs::convert::FromSpecImpl<Xstr> for Cell {
+    open spec fn obeys_from_spec() -> bool { true }
+    open spec fn from_spec(x: Xstr) -> Cell { Cell::Str(x) }
+}
+impl From<Xstr> for Cell {
+//@use cell.fns "impl From<Xstr> for Cell"::from
+}
+impl vstd::std_specs::convert::FromSpecImpl<f64> for Cell {
+    open spec fn obeys_from_spec() -> bool { true }
+    open spec fn from_spec(x: f64) -> Cell { Cell::Real(x) }
+}
+impl From<f64> for Cell {
+//@use cell.fns "impl From<f64> for Cell"::from
+}
+impl vstd::std_specs::convert::FromSpecImpl<usize> for Cell {
+    open spec fn obeys_from_spec() -> bool { true }
+    open spec fn from_spec(x: usize) -> Cell { Cell::Int(x as i128) }
+}
+impl From<usize> for Cell {
+//@use cell.fns "impl From<usize> for Cell"::from
+}
+impl vstd::std_specs::convert::FromSpecImpl<i64> for Cell {
+    open spec fn obeys_from_spec() -> bool { true }
+    open spec fn from_spec(x: i64) -> Cell { Cell::Int(x as i128) }
+}
+impl From<i64> for Cell {
+//@use cell.fns "impl From<i64> for Cell"::from
+}
 impl core::ops::Deref for Xstr { type Target = str; #[verifier::external_body] fn deref(&self) -> &str { unimplemented!() } }
 
 impl RelativeJump {
